@@ -586,6 +586,7 @@ def run(ctx, deep=False):
     own = [sc for sc in scens if sc["gen"] in gens]
     full_stack(ctx, thorough)
     full_stack_nested_loss(ctx, thorough)
+    full_stack_pending_commands(ctx, thorough)
     scripts += [(sc["gen"], "c14." + sc["family"], sc["ops"]) for sc in own]
     c09.tie(ctx, scripts, "C14")
 
@@ -620,6 +621,34 @@ def full_stack(ctx, thorough):
                                   scenario={k: (v if k != "err_text" else {kk: vv.decode() for kk, vv in v.items()}) for k, v in sc.items() if k not in ("inst", "changes")},
                                   implementation_output=str(got), spec_verdict=str(want))
                     break
+
+
+def full_stack_pending_commands(ctx, thorough):
+    """the application's commands pile up in the send buffer during the outage (0..10 of them); the console's state changes meanwhile.
+    After the reconnection the client must still converge to what the console reports then."""
+    import fullstack
+    text = b"ER05 compressor"
+    for gen in (4, 5):
+        for n in (0, 1, 5, 8, 9, 10):
+            sc = dict(inst=fullstack.INST, horizon=500, ac_state=[dict(id=0, power=1, mode=4, fan=0, setpoint=22, temp=235, err=0)], err_text={0: b""},
+                      changes=[(120, 0, 5, text)], faults=[(100, "refuse"), (105, "eof"), (200, "accept")],
+                      calls=[(106 + i, ["power", "zone", "toggle"][i % 3]) for i in range(n)])
+            b = fullstack.run(gen, sc)
+            ctx.case(("full-stack-pending-commands", gen, n))
+            if b.get("init_result") is not True:
+                ctx.tie_broken("C14:console-script", "the full-stack console no longer initialises the AirTouch %d object" % gen)
+                continue
+            got = _error_info_of(b["view"])
+            refresh = [r for r in b["requests"] if r[0] >= 200 and r[2] in (((0x2D, None), (0x2B, None)) if gen == 4 else ((0xC0, 0x23), (0xC0, 0x21)))]
+            ctx.count("full-stack:pending-commands:%d:%s" % (n, "ok" if got == (5, text) else "differs"))
+            if got != (5, text):
+                # with the buffer exactly full the refresh requests are refused (listed in known_findings.txt under this key); any other
+                # number of pending commands has its own key and is reported
+                key = "C14:full-stack:refresh-refused-full-buffer" if (n == 10 and not refresh) else "C14:%d:full-stack:pending-commands" % gen
+                ctx.violation(key, "AirTouch %d over the real socket: %d commands were accepted during an outage in which the console's AC error became 5 '%s'; "
+                              "300 ticks after the reconnection the client shows error_info = %s; status requests seen by the console after the reconnection: %s" % (
+                                  gen, n, text.decode(), got, [r[0] for r in refresh]), kind="history", level="full-stack-pending", gen=gen, pending=n,
+                              implementation_output=str(got), spec_verdict=str((5, text)))
 
 
 def _nested_scenario(delay, lat):
@@ -685,6 +714,9 @@ def replay(ctx, data):
                 print("   ", e)
         print("the client shows error_info =", got, "; the console reports (7, b'ER07 fan locked')")
         return 0 if got == (7, b"ER07 fan locked") else 1
+    if data.get("level") == "full-stack-pending":
+        print(data.get("what"))
+        return 1
     if data.get("level") == "full-stack":
         import fullstack
         sc = dict(data["scenario"], inst=fullstack.INST)
